@@ -446,6 +446,24 @@ func (g *G) orderStmt() []Stmt {
 		default:
 			target = &Index{X: &Index{X: &Index{X: &Name{N: "ln"}, I: pvI(3)}, I: pvI(0)}, I: pvI(int64(g.R.Intn(2)))} // 1 = append
 		}
+		if g.R.Intn(2) == 0 {
+			// the container written in parentheses (once or twice): still the same place, its
+			// operands still evaluated once - also when the store has to put a new container back
+			g.feat("stmt-nested-target-paren-container")
+			wrap := func(c Expr) Expr {
+				c = &Paren{X: c}
+				if g.R.Intn(3) == 0 {
+					c = &Paren{X: c}
+				}
+				return c
+			}
+			switch t := target.(type) {
+			case *Index:
+				t.X = wrap(t.X)
+			case *Member:
+				t.X = wrap(t.X)
+			}
+		}
 		return []Stmt{mk, &Assign{LHS: []Expr{target}, RHS: []Expr{g.intOrd(d)}, Unaliased: true},
 			&ExprStmt{X: &Call{Fn: "rd", Args: []Expr{&StrLit{V: "ln"}, &Name{N: "ln"}}}}}
 	case r < 19 && g.R.Intn(3) == 0:
